@@ -52,11 +52,21 @@ def schema_case(draw):
         p["required"] = True if loc == "path" else draw(st.booleans())
         p["level"], p["ref"] = "operation", False
         plan = {"dialect": dialect, "method": "post", "path": "/t/{p}" if loc == "path" else "/t", "params": [p], "bodies": [], "body_required": True, "schemas": {}, "security": None}
+    if draw(st.integers(0, 7)) == 0:
+        # formats whose checker accepts the empty string (the minimal draw of a negation strategy) and a few more
+        fmt, wit = draw(st.sampled_from([("regex", "a+b"), ("uri-reference", "/a/b?x=1"), ("uri-template", "/items/{id}"), ("iri-reference", "/é"), ("time", "12:00:00Z"), ("duration", "P1D"), ("idn-email", "a@b.example"), ("json-pointer", "/a/0")]))
+        target = plan["bodies"][0] if plan["bodies"] else plan["params"][0]
+        target["schema"], target["witness"] = {"type": "string", "format": fmt}, wit
     plan["access"] = "lookup"
+    if loc != "path":
+        plan["extra_methods"] = draw(st.lists(st.sampled_from(["get", "delete", "put"]), max_size=2, unique=True))
+    plan["path_item_ref"] = draw(st.booleans())
     return {"plan": plan, "modes": draw(st.sampled_from(MODESETS))}
 
 
 def family(desc: str) -> str:
+    if re.fullmatch(r"Value not matching the '[\w-]+' format", desc):
+        return desc  # the format name is part of the root cause
     d = re.sub(r"'[^']*'", "'_'", desc)
     d = re.sub(r"`[^`]*`", "`_`", d)
     d = re.sub(r"-?\d+(\.\d+)?(e[-+]?\d+)?", "N", d)
@@ -196,7 +206,8 @@ def classify(direction, fam, schema, value, root, dialect, loc) -> str:
         which = "pattern-negation" if "pattern" in fam else "min-length-negation" if "smaller" in fam.lower() else "max-length-negation" if "larger" in fam.lower() else "length"
         return "negative-valid:pattern+length-through-search-semantics:" + which
     if "format" in fam:
-        return "negative-valid:format-negation-is-valid"
+        m = re.search(r"the '([\w-]+)' format", fam)
+        return "negative-valid:format-negation-is-valid:" + (m.group(1) if m else "?")
     if "zero-bound" in feats:
         return "negative-valid:bound-equal-to-zero-treated-as-absent"
     return "negative-valid:" + fam
@@ -351,8 +362,8 @@ def check_cases(ctx: Ctx, inp) -> None:
             ctx.disagree("case-label-differs-from-its-parts", f"case labelled {mode.value} but components {({k: v.value for k, v in comps.items()})} ({desc})", input=inp, case=summary)
             continue
         if desc.startswith("Unspecified HTTP method"):
-            if case.method.lower() in {plan["method"]}:
-                ctx.disagree("unspecified-method-is-specified", f"{case.method} is documented for the path", input=inp, case=summary)
+            if case.method.lower() in {plan["method"], *plan.get("extra_methods", [])}:
+                ctx.disagree("unspecified-method-is-specified", f"{case.method} is documented for the path (documented: {sorted({plan['method'], *plan.get('extra_methods', [])})}, path item behind $ref: {bool(plan.get('path_item_ref'))})", input=inp, case=summary)
             continue
         if desc.startswith("Missing "):
             cont = c01.container_of(case, data.parameter_location) if data.parameter_location in ("query", "header", "cookie", "path") else None
